@@ -218,6 +218,10 @@ impl<'a> ModelRun<'a> {
             for a in &w.all_principals {
                 e.all_balances.push((a.clone(), self.st.balance(a)));
             }
+            for d in super::world::SUPPLY_DENOMS {
+                let total: u128 = self.st.bank.values().map(|m| m.get(d).copied().unwrap_or(0)).sum();
+                e.supply.push((d.to_string(), total));
+            }
             b.ext = Some(e);
         }
         b
